@@ -9,6 +9,8 @@ repository (created from PEG_REPO or /repo, removed afterwards); the repository 
   c   tree/peg.go: AddDoubleCharacter pushes Upper before Lower
   d   peg.peg: prefix operators bind tighter than suffix operators (!a* = (!a)*)
   e   tree/peg.go: AddOctalCharacter parses with bitSize 8
+  f   tree/peg.go: AddCaseFold forgets the title case form (ǅ no longer matches itself)
+  g   peg.peg: DoubleChar folds raw ASCII letters only again (the old defect F-C10-1)
 For peg.peg mutations peg.peg.go is regenerated inside the copy with the copy's own peg binary.
 Reports per mutation: REAL-vs-SPEC / REAL-vs-MODEL mismatch counts of `tfront.py --tier quick` and
 the theorems of Props/C10*.lean that fail after regenerating PegGrammar.lean from the mutated peg.peg.
@@ -96,7 +98,18 @@ def m_e():
     edit('tree/peg.go', 'octal, _ := strconv.ParseInt(text, 8, 32)', 'octal, _ := strconv.ParseInt(text, 8, 8)')
 
 
-MUTS = {'a': m_a, 'b': m_b, 'b2': m_b2, 'c': m_c, 'd': m_d, 'e': m_e}
+def m_f():
+    edit('tree/peg.go', 'if text != lower && text != upper {', 'if false && text != lower && text != upper {')
+
+
+def m_g():
+    edit('peg.peg', "DoubleChar\t<- Char                       { p.AddCaseFold() }\n",
+         "DoubleChar\t<- Escape\n\t\t / <[a-zA-Z]>                 { p.AddDoubleCharacter(text) }\n"
+         "                 / !'\\\\' <.>                  { p.AddCharacter(text) }\n")
+    regen_parser()
+
+
+MUTS = {'a': m_a, 'b': m_b, 'b2': m_b2, 'c': m_c, 'd': m_d, 'e': m_e, 'f': m_f, 'g': m_g}
 
 
 def run(name):
@@ -126,7 +139,7 @@ def run(name):
     txt = p.stdout + p.stderr
     src = open(ROOT + '/lean/PegVerif/Props/C10.lean').read().split('\n')
     fl = open(ROOT + '/lean/PegVerif/Proofs/FrontLemmas.lean').read().split('\n')
-    for m in re.finditer(r'error: PegVerif/(Props/C10Escapes|Props/C10|Proofs/FrontLemmas|Proofs/FrontHex)\.lean:(\d+):(\d+): (.*)', txt):
+    for m in re.finditer(r'error: PegVerif/(Props/C10Escapes|Props/C10|Proofs/FrontLemmas|Proofs/FrontHex|Proofs/FrontFold)\.lean:(\d+):(\d+): (.*)', txt):
         lines = open(ROOT + '/lean/PegVerif/' + m.group(1) + '.lean').read().split('\n')
         ln = int(m.group(2))
         # find the theorem this line belongs to
